@@ -125,6 +125,22 @@ Unquote(s) ==
          THEN SubSeq(s, 1, i - 1) \o HexVal(h) \o Unquote(SubSeq(s, i + 3, Len(s)))
          ELSE SubSeq(s, 1, i) \o Unquote(SubSeq(s, i + 1, Len(s)))
 
+\* Stand-ins for non-ASCII characters (TLA+ sources are ASCII; gamma maps them to UTF-8 bytes), one per class
+\* the code's own tests distinguish:
+\*   SUP2  U+00B2 superscript two: str.isdigit() is true, but it is no decimal digit: int() and \d reject it
+\*   ARD3  U+0663 Arabic-Indic digit three: a decimal digit to str.isdigit(), \d AND int() (value 3)
+\*   NAL   U+00E9 a non-ASCII letter
+SUP2 == "^"
+ARD3 == "`"
+NAL  == "@"
+NonAscii == {SUP2, ARD3, NAL}
+IsAscii(s) == T!Chars(s) \cap NonAscii = {}                          \* str.isascii() / .encode("ascii") succeeds
+PyIsDigit(s) == Len(s) > 0 /\ T!Chars(s) \subseteq (T!Digits \cup {SUP2, ARD3})     \* str.isdigit()
+ReDigits(s)  == Len(s) > 0 /\ T!Chars(s) \subseteq (T!Digits \cup {ARD3})           \* re "\d+" (str pattern)
+RECURSIVE IntOf(_)                                                     \* int() of a string that ReDigits accepts
+IntOf(s) == IF Len(s) = 0 THEN 0
+            ELSE 10 * IntOf(SubSeq(s, 1, Len(s) - 1)) + (IF T!Last1(s) = ARD3 THEN 3 ELSE G!DecOf(T!Last1(s)))
+
 HasCRLFch(s) == T!Contains(s, "\r") \/ T!Contains(s, "\n")
 
 --------------------------------------------------------------------------------
@@ -140,7 +156,8 @@ HTTPShape(line) ==
 
 SpartanShape(line) ==
     LET p == T!Split(Strip(line), " ") IN
-    Len(p) = 3 /\ (\A i \in 1..3 : p[i] # "") /\ T!IsDigits(p[3])
+    /\ IsAscii(line)                               \* self.request.encode("ascii")
+    /\ Len(p) = 3 /\ (\A i \in 1..3 : p[i] # "") /\ PyIsDigit(p[3])         \* parts[2].isdigit()
 
 \* "yes" | "no" | the class raised.  D = the defects in force
 ClaimsGP(r, secure, D) ==
@@ -248,8 +265,8 @@ VSplit(s) ==                                   \* handlers/virtual.py: first "?"
 
 Big == 1000000000
 MsgNum(args, flag) ==                          \* "^" + flag + r"(\d+)$"  ->  number, or -1
-    IF T!StartsWith(args, flag) /\ T!IsDigits(SubSeq(args, Len(flag) + 1, Len(args)))
-    THEN LET d == SubSeq(args, Len(flag) + 1, Len(args)) IN IF Len(d) > 9 THEN Big ELSE G!DecOf(d)
+    IF T!StartsWith(args, flag) /\ ReDigits(SubSeq(args, Len(flag) + 1, Len(args)))
+    THEN LET d == SubSeq(args, Len(flag) + 1, Len(args)) IN IF Len(d) > 9 THEN Big ELSE IntOf(d)
     ELSE -1
 
 UrlShaped(s) ==                                \* "^(/|)URL:.+://"
@@ -678,7 +695,8 @@ Step == \/ ReadLine \/ SelectProtocol \/ Parse \/ Lookup \/ Entry \/ WriteOk \/ 
 (* clause operators judge the design model (ModelView) and what alpha observed on the real *)
 (* server (TraceC03 / TraceC20 build a view from the recorded events).                     *)
 ModelView == [proto |-> proto, method |-> Method(rq, proto), frames |-> FramesOf(Fam(proto), out),
-              log |-> log, esc |-> esc, nfds |-> Cardinality(fds), mark |-> mark, ops |-> ops]
+              log |-> log, esc |-> esc, nfds |-> Cardinality(fds \ {"child"}),
+              nproc |-> Cardinality(fds \cap {"child"}), mark |-> mark, ops |-> ops]
 
 \* C03
 OneResponseV(v) == G!WellFormed(v.proto, v.method, v.frames)
@@ -694,7 +712,10 @@ OwnOf(cls) == IF cls = "connection-failure" THEN ConnFailures ELSE {cls}
 OwnClassV(v, cls) ==
     v.mark >= 0 => /\ Len(v.log) > v.mark
                    /\ \A i \in (v.mark + 1)..Len(v.log) : v.log[i].cls \in OwnOf(cls) /\ v.log[i].addr = Client
-FilesClosedV(v) == v.nfds = 0
+\* resources opened for the request: descriptors (files, pipes) AND child processes (running or un-reaped).
+\* As coded the subprocess handlers use subprocess.run: the child is reaped before run() returns or raises,
+\* so no "child" is ever held across a Python write(); a relay that keeps a Popen across its writes would be.
+FilesClosedV(v) == v.nfds = 0 /\ v.nproc = 0
 
 C03Verdict(v, bound) ==
     IF ~OneResponseV(v) THEN "OneResponse"
